@@ -99,3 +99,26 @@ Proof.
   split; [vm_compute; reflexivity|]. vm_compute. discriminate.
 Qed.
 Print Assumptions C13_failing_sink_refuted.
+
+(* ---------- the listing after an append round: the old entries, then the new ones.
+   For every archive new_append accepts and every sequence of calls after it (any arguments, any sink behaviour, any
+   results): the names of the records the writer holds -- the list finish() renders as the new directory
+   (C01_finish_then_open) -- are the names of the directory the READER parses from the old archive, in that order,
+   followed in call order by the names of the creating calls that succeeded (possibly by that of a creating call that
+   failed after its header was written: [selected]), and nothing else: no old entry is dropped, renamed or reordered,
+   whatever happens afterwards. *)
+From ZipV Require Import Proofs.FaultSurface Proofs.CreatedNames.
+Theorem C13_listing_old_then_new : forall enc crc data plan s calls s' rs,
+  new_append data plan = Ok s -> run_calls enc crc s calls = (s', rs) ->
+  exists e cde ao ds n files added,
+    find_eocd data = Ok (e, cde) /\ get_directory_counts data e cde = Ok (ao, ds, n) /\
+    parse_cd (S (length data)) data n ds ao = Ok files /\
+    selected calls rs added /\ names s' = map f_name files ++ added.
+Proof.
+  intros enc crc data plan s calls s' rs Ha Hr.
+  destruct (new_append_state _ _ _ Ha) as (e & cde & ao & ds & n & files & He & Hc & Hp & _ & _ & Hf & _).
+  destruct (run_calls_names enc crc calls _ _ _ Hr) as (added & Hs & Hn).
+  exists e, cde, ao, ds, n, files, added. repeat split; try assumption.
+  rewrite Hn. f_equal. unfold names. rewrite Hf, map_map. apply map_ext. intro f. reflexivity.
+Qed.
+Print Assumptions C13_listing_old_then_new.
